@@ -63,6 +63,8 @@ def run_case(case, ctx, which='C11'):
 def build(case):
     rng = np.random.default_rng(case['seed'])
     k = int(rng.choice([1, 2, 2, 3, 3, 4]))
+    if case['seed'][-1] % 40 == 17:
+        k = int(rng.integers(9, 12))          # many probes (more than 8: orders that a hash-based container would not keep)
     n_samples = int(rng.integers(10, 40))
     nsw = int(rng.integers(3, 6))
     rate = [100., 30000., 30000.185185, 29999.9537][int(rng.integers(0, 4))]      # calibrated (fractional) rates too
@@ -148,10 +150,10 @@ def _run(case, ctx, d, which):
         # the order given by the caller is the probe order: names whose lexicographic order differs (imec2 < imec10,
         # right/left/mid/aux), names with glob metacharacters, spaces and non-ASCII characters
         if same_leaf:
-            sd = os.path.join(d, 'imec%d' % [2, 10, 11, 3][p], 'ks2')
+            sd = os.path.join(d, 'imec%d' % ([2, 10, 11, 3] + list(range(20, 30)))[p], 'ks2')
         else:
             style = case['seed'][-1] % 4
-            sd = os.path.join(d, ['probe%d' % p, 'pröbe %d' % p, 'M7[day%d]*' % p, ['right', 'left', 'mid', 'aux'][p]][style])
+            sd = os.path.join(d, ['probe%d' % p, 'pröbe %d' % p, 'M7[day%d]*' % p, (['right', 'left', 'mid', 'aux'] + ['zz%d' % q for q in range(12, 2, -1)])[p]][style])
         s.write(sd)
         subdirs.append(sd)
     out = os.path.join(d, 'merged')
